@@ -141,6 +141,11 @@ pub fn check_term(ctx: &mut ReCtx, rep: &mut Report, t: RegLan, words: &[Vec<u32
                     }
                     if g1 != *wd {
                         rep.inc("replace_calls_that_replaced_something");
+                        if r.size() <= 14 && rep.xchecks.len() < 60 && rng.chance(1, 200) {
+                            use crate::oracle::smtlib::{lit, re};
+                            rep.xcheck(|| format!("(= (str.replace_re {} {} {}) {})", lit(wd), re(&r), lit(rp), lit(&g1)));
+                            rep.xcheck(|| format!("(= (str.replace_re_all {} {} {}) {})", lit(wd), re(&r), lit(rp), lit(&g2)));
+                        }
                     }
                 }
                 Err(msg) => {
